@@ -109,6 +109,17 @@ CHECKS = [
         "Trusted: reference AVM for the context clause. Dispatch paths up to 4 blocks; up to 3 functions per order.",
         "bounded-exhaustive enumeration of (program, dispatch path, build order) with explicit-state exploration of the concrete AVM filtered by the path automaton; differential snapshots across all build orders",
         "DESIGN.md 3/C12"),
+    chk("C13", "model_checking",
+        "Configurations of 1-3 transactions over a pool of logic-sig and application contracts (own-field checks, Gtxn[i] checks, "
+        "Gtxn[GroupIndex +/- k] checks, index-guarded self checks, partial checks) x transaction types x absolute indices x "
+        "relative offsets in both directions, written as YAML and loaded through read_config_from_file / init_tealer_from_config: "
+        "for each configuration every placement and every member valuation approved by all configured contracts is explored "
+        "(product of E1 explorations sharing the group valuation); an eligible transaction that can carry a dangerous value in "
+        "an approved group must be reported; a transaction whose own contract, or a member naming it by the configured absolute "
+        "index / offset, excludes the value on every accepting abstract path (O2) must not be reported.",
+        "Trusted: reference AVM, O2. Positions 0-3; 'cleared' only for relations stated in the configuration and single-field detectors.",
+        "explicit-state exploration of the product of the configured contracts' concrete executions over a shared transaction group, per configuration of an exhaustively enumerated configuration space",
+        "DESIGN.md 3/C13"),
 ]
 
 _PENDING = "check not built yet in this session (work in progress; see DESIGN.md section 3 for the planned check)"
